@@ -535,6 +535,15 @@ class EQLTranslator:
         ):
             return self._handle_contains_operator(query, left, right, operator_name)
 
+        is_ordering = operation in (operator.lt, operator.le, operator.gt, operator.ge)
+        if is_ordering and any(
+            isinstance(getattr(side, "type", None), sqlalchemy.Enum)
+            for side in (left, right)
+        ):
+            raise UnsupportedOperatorError(
+                "Enum members have no order; an Enum column can only be compared with == or !=."
+            )
+
         mapper = OperatorMapper()
         try:
             return mapper.map_comparison_operator(operation, left, right)
